@@ -128,3 +128,62 @@ def check_side_symmetry(ctx, rule='A23'):
                    f'target side are handled alike)',
                    why if ok else f'`{short(a, 60)}` mirrored is not `{short(b, 60)}`')
     return n
+
+
+# ---------------------------------------------------------------------- A23t: transposed copies are complete
+TRANSPOSE_OMIT_TABLE = {
+    ('NodeExistence', 'src_exists'): 'the constructor folds src_exists into src_n_conn_override, which is passed',
+    ('NodeExistence', 'tgt_exists'): 'the constructor folds tgt_exists into tgt_n_conn_override, which is passed',
+}
+
+
+def _ctor_params(cls):
+    init = cls.methods.get('__init__')
+    if init is not None:
+        return [p for p in init.params[1:]]
+    if any(d.split('(')[0].split('.')[-1] == 'dataclass' for d in cls.decorators):
+        return [s.target.id for s in cls.node.body if isinstance(s, ast.AnnAssign) and
+                isinstance(s.target, ast.Name) and 'ClassVar' not in norm(s.annotation)]
+    return None
+
+
+def check_transpose_complete(ctx, module='adsg_core.optimization.assign_enc.matrix', rule='A23t'):
+    """A method that returns the transposed copy of its receiver (`get_transpose*`, constructing its own class)
+    hands every constructor parameter to the copy: a parameter that is left out silently falls back to its
+    default in the transposed problem, which is then not the same problem seen from the other side."""
+    prog = ctx.prog
+    n = 0
+    for fn in prog.all_functions():
+        if fn.module.name != module or fn.owner_class is None or 'transpose' not in fn.name:
+            continue
+        cls = fn.owner_class
+        params = _ctor_params(cls)
+        if params is None:
+            continue
+        for ret in walk_fn(fn):
+            if not (isinstance(ret, ast.Return) and isinstance(ret.value, ast.Call)):
+                continue
+            call = ret.value
+            cname = norm(call.func)
+            if cname not in (cls.name, 'self.__class__', 'cls'):
+                continue
+            if any(kw.arg is None for kw in call.keywords) or any(isinstance(a, ast.Starred) for a in call.args):
+                raise AnalysisError(f'{fn.key}: transposed copy built with */** arguments - idiom not recognised')
+            passed = set(params[:len(call.args)]) | {kw.arg for kw in call.keywords}
+            missing = []
+            for p in params:
+                if p in passed:
+                    continue
+                if (cls.name, p) in TRANSPOSE_OMIT_TABLE:
+                    ctx.used_exception(rule, f'{cls.name}.{p}', TRANSPOSE_OMIT_TABLE[(cls.name, p)])
+                else:
+                    missing.append(p)
+            n += 1
+            ctx.touch(fn)
+            ctx.ob(rule, fkey(fn, rule, 'all-fields-forwarded'), not missing, f'{fn.module.relpath}:{ret.lineno}',
+                   f'{fn.qualname} builds the transposed {cls.name} from every constructor parameter '
+                   f'({", ".join(params)})',
+                   f'passes {sorted(passed)}' if not missing else
+                   f'{missing} not passed: the transposed copy falls back to the default instead of the '
+                   f'receiver\'s value')
+    return n
